@@ -554,6 +554,86 @@ def model_specs(draw, profile=None):
     for w in spec["inter"]:
         pairs = [(a, b) for a in pops for b in pops]
         data["iw"][w["name"]] = {"%s>%s" % (a, b): {"a": g.pick([0.0, 1.0, 0.5, 2.0])} for a, b in g.subset(pairs, min_size=1)}
+    # ---- programs and instructions -------------------------------------------------------------------
+    spec["progs"] = None
+    spec["instr"] = None
+    if g.coin(p["p_programs"]):
+        sim_end = start + nsteps * dt
+        elig = [c["name"] for c in spec["comps"] if c["kind"] == "ord"]
+        n_pr = draw(st.integers(1, 3))
+        plist = []
+        for i in range(n_pr):
+            pr = {"name": "G" + "abc"[i], "pops": g.subset(pops, min_size=1), "comps": g.subset(elig, min_size=1, max_size=3)}
+            y0 = g.pick([start, start - 1.0])
+
+            def money():
+                return g.pick([0.0, 10.0, 100.0, 1000.0, 1e5]) if g.coin(0.3) else g.fl(1.0, 5000.0)
+
+            pr["spend"] = {"t": [y0], "v": [money()]}
+            if g.coin(0.3):
+                pr["spend"] = {"t": [y0, start + g.pick([1, 2, 3]) * dt], "v": [money(), money()]}
+                g.labels.add("prog:spend-time-varying")
+            pr["cost"] = {"t": [y0], "v": [g.pick([0.5, 1.0, 10.0, 200.0]) if g.coin(0.5) else g.fl(0.1, 500.0)]}
+            pr["per_year"] = g.coin(0.4)
+            if g.coin(0.3):
+                pr["cap"] = {"t": [y0], "v": [g.pick([0.0, 1.0, 50.0, 1e4])]}
+                pr["cap_per_year"] = g.coin(0.5)
+                g.labels.add("prog:capacity-constraint")
+            if g.coin(0.3):
+                pr["sat"] = {"t": [y0], "v": [g.pick([0.2, 0.5, 0.9, 1.0, 2.0])]}
+                g.labels.add("prog:saturation")
+            plist.append(pr)
+        # candidate targets: non-timed, non-derivative parameters; number format only for transition parameters
+        cands = []
+        for name, d in pars.items():
+            if d["timed"] or d["deriv"]:
+                continue
+            if (d["fn"] or "").startswith(("SRC_POP", "TGT_POP")) or ":" in (d["fn"] or ""):
+                continue  # aggregations are computed after the overwrite; parameters depending on flows are output-only and cannot be overwritten
+            if d["fmt"] == "number" and not par_sources[name]:
+                continue
+            cands.append(name)
+        covouts = []
+        for name in g.subset(cands, min_size=1, max_size=3):
+            pars[name]["tgt"] = True
+            fmt = pars[name]["fmt"]
+
+            def outcome():
+                if fmt in ("rate", "probability", "proportion"):
+                    return g.pick([0.0, 1.0, 0.5]) if g.coin(0.3) else g.fl(0.0, 1.0)
+                if fmt == "number":
+                    return g.fl(0.0, 2.0)
+                if fmt == "duration":
+                    return g.fl(0.05, 5.0)
+                return g.fl(0.0, 10.0)
+
+            for pop in g.subset(pops, min_size=1):
+                prs = g.subset([q["name"] for q in plist], min_size=1)
+                co = {"par": name, "pop": pop, "base": outcome(), "progs": {q: outcome() for q in prs}, "ci": g.pick(["additive", "random", "nested"])}
+                if len(prs) >= 2 and g.coin(0.3):
+                    co["imp"] = {"+".join(prs[:2]): outcome()}
+                    g.labels.add("prog:explicit-interaction")
+                covouts.append(co)
+            g.labels.add("prog:target-%s%s" % (fmt, "" if par_sources[name] else "-nontransition"))
+        spec["progs"] = {"years": [start], "progs": plist, "covouts": covouts}
+        k0 = draw(st.integers(0, max(0, nsteps - 1)))
+        ystart = start + k0 * dt + g.pick([0.0, 0.0, 0.5 * dt])
+        ins = {"start": ystart, "stop": None, "alloc": {}, "capacity": {}, "coverage": {}}
+        if g.coin(0.4):
+            ins["stop"] = ystart + draw(st.integers(1, max(1, nsteps))) * dt + g.pick([0.0, 0.3 * dt])
+            g.labels.add("instr:stop-year")
+        for q in plist:
+            if g.coin(0.3):
+                ins["alloc"][q["name"]] = {"t": [ystart], "v": [g.fl(0.0, 5000.0)]}
+                g.labels.add("instr:alloc")
+            if g.coin(0.15):
+                ins["capacity"][q["name"]] = {"t": [ystart], "v": [g.fl(0.0, 2000.0)]}
+                g.labels.add("instr:capacity")
+            if g.coin(0.15):
+                ins["coverage"][q["name"]] = {"t": [ystart], "v": [g.fl(0.0, 1.2)]}
+                g.labels.add("instr:coverage")
+        spec["instr"] = ins
+        g.labels.add("has:programs")
     spec["data"] = data
     spec["pops"] = pops
     spec["pars"] = [{k: v for k, v in d.items() if not k.startswith("_")} for d in pars.values()]
